@@ -9,16 +9,16 @@ use crate::spec::EventSpec;
 
 pub const PATHS: &[&str] = &[
     ".a", ".b", ".a.b", ".a.c", ".arr", ".arr[0]", ".arr[1]", ".arr[-1]", ".arr[-3]", ".\"k k\"", ".o.p.q", ".", "%m", "%m.n",
-    "%arr[0]", ".arr[2].x", "%",
+    "%arr[0]", ".arr[2].x", "%", ".\"a.b\"", ".o.p.q.r.s", ".arr[1].n[0]", "%m.\"x y\".z",
 ];
 
 const LITS: &[&str] = &["1", "\"s\"", "true", "null", "[1, 2]", "{\"b\": 1}", "{\"b\": {\"c\": 2}}", "[]", "{}", "2.5"];
 
-pub const N_PRODUCTIONS: usize = 25;
+pub const N_PRODUCTIONS: usize = 31;
 pub const PRODUCTION_NAMES: [&str; N_PRODUCTIONS] = [
     "assign_path", "assign_var", "merge_assign", "infallible_path_var", "infallible_var_path", "del", "del_compact",
     "if_exists", "if_eq", "for_each_object", "for_each_array", "map_values", "filter", "unnest", "replace_root",
-    "merge_root", "abort", "return", "exists_stmt", "assign_index_deep", "chained_assign", "infallible_path_path", "root_functions", "if_then_abort", "if_then_return",
+    "merge_root", "abort", "return", "exists_stmt", "assign_index_deep", "chained_assign", "infallible_path_path", "root_functions", "if_then_abort", "if_then_return", "if_chain", "abort_with_message", "variable_path_then_root", "nested_closure", "closure_return", "root_ops",
 ];
 
 pub struct Gen<'a> {
@@ -31,7 +31,7 @@ pub struct Gen<'a> {
 
 impl<'a> Gen<'a> {
     pub fn new(rng: &'a mut Rng) -> Self {
-        let base: [u32; N_PRODUCTIONS] = [10, 5, 4, 4, 4, 6, 4, 5, 4, 4, 4, 3, 3, 4, 3, 3, 1, 1, 2, 3, 3, 4, 3, 2, 2];
+        let base: [u32; N_PRODUCTIONS] = [10, 5, 4, 4, 4, 6, 4, 5, 4, 4, 4, 3, 3, 4, 3, 3, 1, 1, 2, 3, 3, 4, 3, 2, 2, 3, 1, 3, 2, 2, 3];
         let mut weights = base;
         // swarm: disable a random half of the productions (never all)
         for w in weights.iter_mut() {
@@ -110,7 +110,7 @@ impl<'a> Gen<'a> {
         let mut w = self.weights;
         if depth >= 2 {
             // no further nesting
-            for i in [7usize, 8, 9, 10, 11, 12, 23, 24] {
+            for i in [7usize, 8, 9, 10, 11, 12, 23, 24, 25, 28, 29] {
                 w[i] = 0;
             }
         }
@@ -118,6 +118,8 @@ impl<'a> Gen<'a> {
             // early termination and variable definitions only at the top level
             w[16] = 0;
             w[17] = 0;
+            w[26] = 0;
+            w[27] = 0;
         }
         if w.iter().all(|x| *x == 0) {
             w[0] = 1;
@@ -222,6 +224,59 @@ impl<'a> Gen<'a> {
                 let tail = if k == 23 { "abort".to_string() } else { format!("return {}", self.rvalue()) };
                 format!("if exists({p}) {{\n  {}\n  {tail}\n}}", a.replace('\n', "\n  "))
             }
+            25 => {
+                // three-way chain: each predicate and each branch touches the target
+                let a = self.stmt(depth + 1, false);
+                let b = self.stmt(depth + 1, false);
+                let c = self.stmt(depth + 1, false);
+                format!(
+                    "if exists({}) {{\n  {}\n}} else if {} == {} {{\n  {}\n}} else {{\n  {}\n}}",
+                    self.npath(), a.replace('\n', "\n  "), self.path(), self.lit(), b.replace('\n', "\n  "), c.replace('\n', "\n  ")
+                )
+            }
+            26 => {
+                let p = self.npath();
+                let q = self.path();
+                format!("if exists({p}) {{\n  abort \"stop: \" + (to_string({}) ?? \"?\")\n}}", self.any(q))
+            }
+            27 => {
+                // build in a variable, then copy to the target (root or path)
+                let v = self.var();
+                let r1 = self.rvalue();
+                let r2 = self.rvalue();
+                let dst = if self.rng.chance(0.4) { "." } else { self.wpath() };
+                let s = format!("{v} = {{}}\n{v}.a = {r1}\n{v}.arr = [{r2}]\n{dst} = {v}");
+                if top && !self.defined.contains(&v) {
+                    self.defined.push(v);
+                }
+                s
+            }
+            28 => {
+                // nested closures, both parameters used, writes from the inner body
+                let p = self.path();
+                let q = self.path();
+                format!(
+                    "for_each(object({}) ?? {{}}) -> |k, v| {{ for_each(array({}) ?? []) -> |i, w| {{ {} = [k, v, i, w] }} }}",
+                    self.any(p), self.any(q), self.wpath()
+                )
+            }
+            29 => {
+                // early return out of a closure iteration after a write
+                let v = self.var();
+                let p = self.path();
+                let s = format!("{v} = map_values(object({}) ?? {{}}) -> |val| {{ {} = val; if val == {} {{ return {} }}; val }}", self.any(p), self.wpath(), self.lit(), self.lit());
+                if top && !self.defined.contains(&v) {
+                    self.defined.push(v);
+                }
+                s
+            }
+            30 => match self.rng.below(5) {
+                0 => "% = {\"m\": {\"n\": 1}}".to_string(),
+                1 => format!("{} = exists(%m)", self.wpath()),
+                2 => format!(". |= object({}) ?? {{}}", { let p = self.path(); self.any(p) }),
+                3 => format!("% |= {{\"k\": {}}}", self.rvalue()),
+                _ => format!("{} = del(%m)", self.wpath()),
+            },
             _ => {
                 // functions that take the whole event / metadata as a value
                 let root = if self.rng.chance(0.7) { "." } else { "%" };
